@@ -54,8 +54,8 @@ fn check_item(it: &Item, st: &mut Stats) -> Result<(), String> {
         if c_plan != c_direct {
             return Err(format!("K={k} (K'={}) {name}: plan replay and direct solve give different intermediate symbols", pr.kp));
         }
-        if enc != enc2 {
-            return Err(format!("K={k} (K'={}) {name}: encoders from direct solve and plan replay are not equal", pr.kp));
+        if enc.repair_packets(0, 3) != enc2.repair_packets(0, 3) || enc.source_packets() != enc2.source_packets() {
+            return Err(format!("K={k} (K'={}) {name}: encoders from direct solve and plan replay emit different packets", pr.kp));
         }
         all.push((name.to_string(), c_direct));
     }
